@@ -298,6 +298,9 @@ def run_history(otype, config, ops):
                 P = V.lib().P
                 if why == "wrong-type":
                     lv = plain_wrong(pmap[pid][0])
+                    if lv is None:
+                        stats["refused"] -= 1
+                        continue                   # every application type can start a value of this datatype
                 elif pid in pmap and plain is not None:
                     vt = pmap[pid][0].subtype if index is not None and is_array(pmap[pid][0]) else pmap[pid][0]
                     lv = V.to_lib(vt, plain)
@@ -388,15 +391,58 @@ def run_history(otype, config, ops):
     return fails[:2], stats
 
 
-def plain_wrong(dt):
-    """a library value whose application type cannot be the declared datatype"""
-    P = V.lib().P
+def first_kinds(dt, seen=None):
+    """application-tagged primitive kinds an encoding of dt can start with; None = anything (Any)"""
+    L = V.lib()
+    C = L.C
+    seen = seen or set()
     while V.is_arrayof(dt) or V.is_listof(dt) or V.is_seqof(dt):
         dt = dt.subtype               # a single element is a legitimate one-element list
+    if dt in seen:
+        return set()
+    seen = seen | set([dt])
+    if issubclass(dt, C.AnyAtomic) or issubclass(dt, C.Any):
+        return None
     k = V.atomic_kind(dt)
-    if k in ("CharacterString", "OctetString", "BitString", "Date", "Time", "ObjectIdentifier", "Boolean", "Null"):
-        return P.Real(1.5)
-    return P.CharacterString("wrong")
+    if k is not None:
+        return set([k])
+    out = set()
+    if issubclass(dt, C.Choice):
+        for e in dt.choiceElements:
+            if e.context is None:
+                f = first_kinds(e.klass, seen)
+                if f is None:
+                    return None
+                out |= f
+        return out
+    if issubclass(dt, C.Sequence):
+        for e in dt.sequenceElements:
+            if e.context is None:
+                f = first_kinds(e.klass, seen)
+                if f is None:
+                    return None
+                out |= f
+            if not e.optional:
+                break
+        return out
+    return None
+
+
+def plain_wrong(dt):
+    """a library value whose application type cannot be (the start of) the declared datatype, or None if there is none"""
+    P = V.lib().P
+    f = first_kinds(dt)
+    if f is None:
+        return None
+    cands = [("CharacterString", lambda: P.CharacterString("wrong")), ("Real", lambda: P.Real(1.5)),
+             ("Time", lambda: P.Time((1, 2, 3, 4))), ("OctetString", lambda: P.OctetString(b"\x01\x02"))]
+    if f & set(["CharacterString", "OctetString", "BitString", "Date", "Time", "ObjectIdentifier", "Boolean", "Null"]):
+        cands = [cands[1], cands[0]] + cands[2:]      # Real first against the non-numeric kinds
+    for kind, make in cands:
+        if kind in f or (kind == "Real" and "Double" in f):
+            continue
+        return make()
+    return None
 
 
 def _s(v):
